@@ -210,6 +210,9 @@ func newCtx(id string) *Ctx {
 	return cx
 }
 
+// NewScratchCtx returns a context whose counters are discarded (native fuzz targets).
+func NewScratchCtx(id string) *Ctx { return newCtx(id) }
+
 func (p *Part) write() {
 	out := os.Getenv("VERIF_PART_OUT")
 	if out == "" {
